@@ -4,6 +4,7 @@ import GraafVerif.Proof.ChkGenDijkstra
 import GraafVerif.Proof.ChkGenBfmFw
 import GraafVerif.Proof.ChkGenRepr
 import GraafVerif.Proof.ChkGen5
+import GraafVerif.Thm.AlgoGen6
 /-!
 # C13 on the SOURCE-REGENERATED definitions (`Model/AlgoGen{,2,3,4}.lean`)
 
@@ -15,7 +16,7 @@ A change of a covered function changes the generated definition, so these proofs
 what the code says NOW (set 1: direct proofs with the calculus of `Proof/ChkGenRt.lean`; sets 2–4:
 transported through the equality theorems of `Thm/AlgoGen{2,3,4}.lean`).
 
-Every function of graaf that contains an unsafe site is regenerated (sets 1–5).  What the regenerated
+Every function of graaf that contains an unsafe site is regenerated (sets 1–6).  What the regenerated
 reading cannot see: the DROP discipline of `AdjacencyMap::union` (the translator reads `ptr::read` as a copy),
 more than one schedule of the workers, and — `DistanceMatrix::new` — a `set_len` that precedes the writes is
 accepted as long as nothing uses the vector in between (docs/C13.md §11).
@@ -241,6 +242,17 @@ theorem distanceMatrix_noUB (order : Nat) (inf : Int) :
 /-- a matrix value with too few blocks (not constructible through the public API) -/
 example : AlgoGen.AdjacencyMatrix.addArc ⟨[], 2⟩ 0 1 =
     .error (.fault (.ub "repr/adjacency_matrix/mod.rs:add_arc:self.blocks.get_unchecked_mut(i >> 6)")) := by decide
+
+/-! ## Set 6 — `AdjacencyList::indegree_sequence` (`*ptr.add(v) += 1` for every head `v`) -/
+
+/-- on every well-formed list the generated `indegree_sequence` never ends in `ub` (it returns) -/
+theorem adjList_indegreeSequence_noUB (d : AdjList) (h : d.WF) : NoUB (AlgoGen.AdjacencyList.indegreeSequence d) := by
+  rw [AlgoGenThm.c02_generated_indegree_sequence d h]; exact noUB_ok _
+
+/-- outside `WF` (a head `≥ order`, rejected by every constructor) the generated code DOES answer `ub` -/
+example : AlgoGen.AdjacencyList.indegreeSequence ⟨[[5], []]⟩ =
+    .error (.fault (.ub "repr/adjacency_list/mod.rs:indegree_sequence:ptr.add(v)")) := by decide
+example : AlgoGen.AdjacencyList.indegreeSequence ⟨[[1, 2], [2], [0]]⟩ = .ok [1, 1, 2] := by decide
 
 /-- **The `join().unwrap_unchecked()` / `lock().unwrap_unchecked()` sites.**  They are UB exactly when a
 worker panicked.  Under the translator's reading (a worker runs to completion at its spawn point; its panic
